@@ -33,4 +33,14 @@ let () =
     | [id] -> (match VarName.alloc (n_of_int (int_of_string id)) with
                | Some (name, id') -> enc_str name ^ ";" ^ string_of_int (int_of_n id')
                | None -> "OUT-OF-FUEL")
+    | _ -> "ERR args");
+  (* entscan <named: enc(entity)=enc(decoded)+...> <text> : the parser's decoding of static text *)
+  register "entscan" (function
+    | [named; t] ->
+        let tbl = if named = "" then [] else
+          L.map (fun item -> match S.split_on_char '=' item with
+                             | [a; b] -> (dec_str a, dec_str b)
+                             | _ -> failwith "bad named") (S.split_on_char '+' named) in
+        let lookup e = (try Some (L.assoc e tbl) with Not_found -> None) in
+        enc_str (TextDecode.decode_text lookup (dec_str t))
     | _ -> "ERR args")
